@@ -8,3 +8,4 @@ import ThriftVerif.Props.C02
 #print axioms Props.C02.read_retag_skips
 #print axioms Props.C02.read_required_missing
 #print axioms Props.C02.read_skips_unknown_anywhere
+#print axioms Props.C02.typeid_table_sound
